@@ -14,7 +14,8 @@ use crate::Cfg;
 pub const FLOORS: &[&str] = &[
     "reset_after_execution", "reset_after_move_reg", "reset_after_move_mem", "reset_after_goto",
     "reset_after_eval_store", "reset_after_program_store", "reset_twice", "reset_then_full_run",
-    "store_into_code", "store_into_stack_area", "memory_dirty_before_reset",
+    "store_into_code", "store_into_stack_area", "memory_dirty_before_reset", "output:minimal", "output:decorated",
+    "assembly_after_store_into_code",
 ];
 
 const FUEL: u64 = 15_000;
@@ -30,6 +31,11 @@ fn one_case(seed: u64, i: u64) -> CaseOut {
     let mut out = CaseOut::new();
     let mut rng = Rng::for_case(seed, "C12", i);
     let stack = rng.bool();
+    // this monitor compares machine state, not debugger text: half of the sessions use the
+    // decorated output mode, whose `assembly`/`print` paths differ from the minimal ones
+    let minimal = rng.bool();
+    crate::exec::case_minimal(minimal);
+    out.class(if minimal { "output:minimal" } else { "output:decorated" });
     let origin = if rng.bool() { Some(gen_origin(&mut rng).clamp(0x10, 0xF000)) } else { None };
     let o = ProgOpts {
         stack,
@@ -118,7 +124,23 @@ fn one_case(seed: u64, i: u64) -> CaseOut {
                 }
                 lines.push("continue".into());
             }
-            _ => lines.push(rng.s(&["registers", "print r0", "break list", "assembly"]).to_string()),
+            _ => {
+                // looking is not touching: inspection commands in between, also right after stores into code
+                let l = match rng.below(6) {
+                    0 => format!("assembly x{:04x}", in_prog(&mut rng)),
+                    1 => format!("print x{:04x}", in_prog(&mut rng)),
+                    2 => "assembly".to_string(),
+                    _ => rng.s(&["registers", "print r0", "break list", "assembly ^1", "print ^"]).to_string(),
+                };
+                if l.starts_with('a') && tags.contains(&"store_into_code") {
+                    tags.push("assembly_after_store_into_code");
+                }
+                lines.push(l);
+            }
+        }
+        if tags.last() == Some(&"reset_after_move_mem") && tags.contains(&"store_into_code") && rng.chance(1, 3) {
+            lines.push(if rng.bool() { "assembly".to_string() } else { format!("assembly x{:04x}", in_prog(&mut rng)) });
+            tags.push("assembly_after_store_into_code");
         }
     }
     let n_resets = 1 + rng.below(3);
@@ -249,6 +271,7 @@ fn one_case(seed: u64, i: u64) -> CaseOut {
             std::thread::Builder::new()
                 .stack_size(8 << 20)
                 .spawn_scoped(s, move || {
+                    crate::exec::case_minimal(minimal);
                     let (mut env, _) = build_env(&t, stack, None).ok()?;
                     let obs = run_env(&mut env, RunCfg { fuel: Some(FUEL), input: vec![], keep_trace: false, on_prompt: None });
                     Some((obs.end, obs.out_normal, final_state(&env)))
